@@ -7,12 +7,12 @@ ALLOWED_AXIOMS = set()  # Print Assumptions must report "Closed under the global
 # histories per suite: quick = every change (split over `shards` processes); thorough = 16 shards (+ release profile)
 SUITES = {
     "r-codec": {"quick": 300, "thorough": 20000, "shards": 1},
-    "r-pair": {"quick": 400, "thorough": 20000, "shards": 2},
-    "r-hostile": {"quick": 400, "thorough": 20000, "shards": 2},
-    "r-server": {"quick": 300, "thorough": 20000, "shards": 2},
+    "r-pair": {"quick": 600, "thorough": 20000, "shards": 4},
+    "r-hostile": {"quick": 800, "thorough": 20000, "shards": 4},
+    "r-server": {"quick": 400, "thorough": 20000, "shards": 4},
     "n-codec": {"quick": 120, "thorough": 6000, "shards": 4},
     "n-replay": {"quick": 300, "thorough": 20000, "shards": 1},
-    "n-world": {"quick": 160, "thorough": 6000, "shards": 8},
+    "n-world": {"quick": 320, "thorough": 6000, "shards": 8},
     "t-udp": {"quick": 120, "thorough": 4000, "shards": 8},
 }
 
